@@ -9,9 +9,14 @@ from .values import (NONE, TRUE, FALSE, AbsList, BoolV, ClassV, DictV, EnumV, Ex
                      IntV, Join, LambdaV, ListV, Lit, ModuleV, Obj, SetV, Str, SuperV, SymBool, TupleV, Unknown,
                      Value)
 
-STR_METHODS = {"startswith", "endswith", "removesuffix", "removeprefix", "lower", "upper", "split", "replace",
+STR_METHODS = {"rpartition", "casefold", "isupper", "islower", "ljust", "rjust", "center", "swapcase", "expandtabs", "startswith", "endswith", "removesuffix", "removeprefix", "lower", "upper", "split", "replace",
                "join", "strip", "lstrip", "rstrip", "isdigit", "format", "find", "count", "splitlines", "encode",
                "title", "capitalize", "rsplit", "index", "isalnum", "isalpha", "partition", "zfill"}
+
+
+class _AbstractOuter(Exception):
+    def __init__(self, k, it):
+        self.k, self.it = k, it
 
 
 class Builtins:
@@ -394,7 +399,7 @@ class Builtins:
     def comprehension(self, node, elt: ast.expr, gens: List[ast.comprehension], fr, kind: str) -> Value:
         I = self.I
         if len(gens) != 1:
-            raise I.unsupported("nested comprehension", node, fr)
+            return self.nested_comprehension(node, elt, gens, fr)
         g = gens[0]
         it = I.eval(g.iter, fr)
         if isinstance(it, ListV) and it.absorbed is not None:
@@ -428,6 +433,69 @@ class Builtins:
             return ListV(out)
         finally:
             # comprehension variables do not leak
+            for k in list(fr.locals):
+                if k not in saved:
+                    del fr.locals[k]
+            fr.locals.update(saved)
+
+    def nested_comprehension(self, node, elt: ast.expr, gens: List[ast.comprehension], fr) -> Value:
+        """[elt for a in A for b in B(a) ...]: concrete iterables are unrolled; an abstract outer iterable with a
+        concrete inner part gives a list of groups (flattened, in order)"""
+        I = self.I
+        saved = dict(fr.locals)
+
+        def rec(k: int) -> List[Value]:
+            if k == len(gens):
+                return [I.eval(elt, fr)]
+            g = gens[k]
+            it = I.eval(g.iter, fr)
+            if isinstance(it, ListV) and it.absorbed is not None:
+                it = it.absorbed
+            if isinstance(it, (AbsList, Unknown)):
+                raise _AbstractOuter(k, it)
+            out: List[Value] = []
+            for _, x, _ in self.iterate(it, node, fr):
+                I.assign(g.target, x, fr)
+                if all(I.truth(I.eval(c, fr), I.up(c)) for c in g.ifs):
+                    out.extend(rec(k + 1))
+            return out
+        try:
+            try:
+                return ListV(rec(0))
+            except _AbstractOuter as ao:
+                if ao.k != 0:
+                    raise I.unsupported("comprehension with an abstract inner iterable", node, fr)
+                it = ao.it
+                g = gens[0]
+                if g.ifs:
+                    raise I.unsupported("filtered abstract outer generator in a nested comprehension", node, fr)
+                elem = it.elem if isinstance(it, AbsList) else Unknown(f"{it.tag}[*]", {"elem_of": it, "not_none": True})
+                src = it.src if isinstance(it, AbsList) else it.tag
+                I.assign(g.target, elem, fr)
+                fr.abs_loop.append(src)
+                try:
+                    inner_gens = gens[1:]
+
+                    def rec2(k: int) -> List[Value]:
+                        if k == len(inner_gens):
+                            return [I.eval(elt, fr)]
+                        gg = inner_gens[k]
+                        it2 = I.eval(gg.iter, fr)
+                        if not isinstance(it2, (ListV, TupleV)) or getattr(it2, "absorbed", None) is not None:
+                            raise I.unsupported("comprehension with an abstract inner iterable", node, fr)
+                        out2: List[Value] = []
+                        for x in it2.items:
+                            I.assign(gg.target, x, fr)
+                            if all(I.truth(I.eval(c, fr), I.up(c)) for c in gg.ifs):
+                                out2.extend(rec2(k + 1))
+                        return out2
+                    group = rec2(0)
+                finally:
+                    fr.abs_loop.pop()
+                flags = dict(it.flags) if isinstance(it, AbsList) else {}
+                flags["flattened_groups"] = True
+                return AbsList(TupleV(group), src, flags)
+        finally:
             for k in list(fr.locals):
                 if k not in saved:
                     del fr.locals[k]
@@ -664,8 +732,8 @@ class Builtins:
             return Str((Hole(I.run.new_tag("str.format"), "formatted", meta={"fmt": s, "args": args}),))
         if name == "encode":
             return Unknown(I.run.new_tag("bytes"))
-        if name == "partition":
-            return Unknown(I.run.new_tag(f"{s.render()}.partition({argtxt})"))
+        if name in ("partition", "rpartition"):
+            return Unknown(I.run.new_tag(f"{s.render()}.{name}({argtxt})"))
         raise I.unsupported(f"str.{name} on {s!r}", node, fr)
 
     def join(self, sep: Str, it: Value, node, fr) -> Value:
@@ -829,6 +897,17 @@ class Builtins:
                 recv.pairs.append((args[0], args[1] if len(args) > 1 else NONE))
                 return recv.pairs[-1][1]
         if isinstance(recv, SetV):
+            if meth in ("update", "union"):
+                tgt = recv if meth == "update" else SetV(list(recv.items))
+                for other in args:
+                    if isinstance(other, ListV) and other.absorbed is not None:
+                        raise I.unsupported("set.update with abstract list", node, fr)
+                    for x in (other.items if isinstance(other, (ListV, TupleV, SetV)) else [k for k, _ in other.pairs] if isinstance(other, DictV) else []):
+                        if not any(I.try_equals(x, y) is True for y in tgt.items):
+                            tgt.items.append(x)
+                return NONE if meth == "update" else tgt
+            if meth == "copy":
+                return SetV(list(recv.items))
             if meth == "add":
                 if not any(I.try_equals(x, args[0]) is True for x in recv.items):
                     recv.items.append(args[0])
@@ -1050,6 +1129,28 @@ class Builtins:
         if isinstance(v, (ListV, TupleV)):
             return ListV(list(reversed(v.items)))
         return AbsList(Unknown(self.I.run.new_tag("reversed_elem")), "reversed(...)", {"order": "reversed"})
+
+    def x_next(self, args, kwargs, node, fr) -> Value:
+        I = self.I
+        v = args[0]
+        if isinstance(v, ListV) and v.absorbed is not None:
+            v = v.absorbed
+        if isinstance(v, (ListV, TupleV)):
+            if v.items:
+                return v.items[0]
+            if len(args) > 1:
+                return args[1]
+            I.raise_exc("StopIteration", [], node, fr)
+        if isinstance(v, AbsList):
+            if I.truth(v, f"{v.src} is non-empty"):
+                return v.elem
+            if len(args) > 1:
+                return args[1]
+            I.raise_exc("StopIteration", [], node, fr)
+        raise I.unsupported(f"next() of {v!r}", node, fr)
+
+    def x_iter(self, args, kwargs, node, fr) -> Value:
+        return args[0]
 
     def x_print(self, args, kwargs, node, fr) -> Value:
         self.I.run.event("print", args=args, node=node)
